@@ -255,6 +255,35 @@ static void shp_gen(Ctx& ctx) {
 VK_SUB(rngiso, "rng_isolation");
 static void rngiso_check(const Json& c, Out& o) {
     const int sa = c.geti("sa"), sb = c.geti("sb"), k1 = c.geti("k1"), k2 = c.geti("k2"), kb = c.geti("kb"), gen = c.geti("gen");
+    const int mode = c.geti("mode", 0);
+    if (mode == 1) {
+        // Threads that never seed: a thread that starts drawing observes some default sequence.  If that default is deterministic
+        // (two fresh threads U0, U1 agree while nobody seeds in between - the premise, measured here, not assumed), then a third
+        // fresh thread must still observe it after ANOTHER thread called rng(sb) and drew: seeding in one thread must not change
+        // what another thread observes.  `pre` = the main thread seeds before anything else (or not).
+        run_forked(o, 120.0, [&](Out& co) {
+            auto draw = [&](int g, int k) -> uint64_t { return g == 0 ? hbits(randn(k)) : g == 1 ? hbits(rand(k)) : hbits(randi({-3, 1000}, k)); };
+            if (c.geti("pre", 0)) { rng(sa); (void)draw(gen, 2); }
+            uint64_t u0 = 0, u1 = 0, u2 = 0, u3 = 0;
+            { std::thread t([&]() { u0 = draw(gen, k1); }); t.join(); }
+            { std::thread t([&]() { u1 = draw(gen, k1); }); t.join(); }
+            if (u0 != u1) { co.label("premise-failed:default sequence of a fresh thread is not deterministic"); co.discard = true; return; }
+            { std::thread t([&]() { rng(sb); (void)draw(gen, kb); }); t.join(); }
+            { std::thread t([&]() { u2 = draw(gen, k1); }); t.join(); }
+            // ... and while a seeding thread is still alive
+            std::atomic<int> phase{0};
+            std::thread B([&]() { rng(sb + 1); (void)draw(gen, kb); phase.store(1); while (phase.load() != 2) std::this_thread::yield(); });
+            while (phase.load() != 1) std::this_thread::yield();
+            { std::thread t([&]() { u3 = draw(gen, k1); }); t.join(); }
+            phase.store(2);
+            B.join();
+            if (u2 != u0 || u3 != u0) co.fail("rng:fresh-thread-sees-foreign-seed", fmt("a thread that never seeds drew a different sequence after another thread called rng(%d) (%s) / while another thread that called rng(%d) was alive (%s)", sb, u2 == u0 ? "same" : "differs", sb + 1, u3 == u0 ? "same" : "differs"));
+        });
+        if (o.failed && o.sig == "tsan") o.sig = "tsan:race:" + first_dsplib_frame(o.msg);
+        o.nontrivial(key_of(sa, sb, k1, kb, gen, 77 + c.geti("pre", 0)));
+        o.label(std::string("unseeded-threads:") + (gen == 0 ? "randn" : gen == 1 ? "rand" : "randi"));
+        return;
+    }
     run_forked(o, 120.0, [&](Out& co) {
         auto draw = [&](int g, int k) -> uint64_t { return g == 0 ? hbits(randn(k)) : g == 1 ? hbits(rand(k)) : hbits(randi({-3, 1000}, k)); };
         rng(sa);
@@ -274,6 +303,9 @@ static void rngiso_check(const Json& c, Out& o) {
 static void rngiso_gen(Ctx& ctx) {
     ctx.rc("handover", ctx.by_tier(1600, 16000), [&]() {
         return Json::object().set("sa", pick(0, 1000)).set("sb", pick(0, 1000)).set("k1", pick(1, 50)).set("k2", pick(1, 50)).set("kb", pick(1, 50)).set("gen", pick(0, 2));
+    });
+    ctx.rc("unseeded", ctx.by_tier(800, 8000), [&]() {
+        return Json::object().set("mode", 1).set("pre", pick(0, 1)).set("sa", pick(1, 1000)).set("sb", pick(1, 1000)).set("k1", pick(1, 50)).set("k2", 0).set("kb", pick(1, 50)).set("gen", pick(0, 2));
     });
 }
 
